@@ -9,6 +9,7 @@ import (
 	"time"
 
 	"github.com/fiorix/go-diameter/v4/diam"
+	"github.com/fiorix/go-diameter/v4/diam/datatype"
 	"github.com/fiorix/go-diameter/v4/diam/dict"
 	"verif/internal/refcodec"
 	"verif/vnet"
@@ -28,7 +29,7 @@ func init() {
 	}
 	Registry["C15"] = &Check{
 		Scenarios: c15Scenarios,
-		Rule: "Server.Serve with three connections plus a fourth offered after the fault; accept script: every placement of <=2 temporary accept errors among the offers; connection A suffers one fault from {handler panic, undecodable header with trailing bytes, disconnect in the middle of a message} at every position 1..3 of its three-message sequence; connections B and C (and the late D) exchange two request/answer pairs each; every ordering of environment steps, timers and blocking hand-overs at preemption bound 0 (quick) and every schedule up to bound 1 (thorough); back-off sleeps run on the virtual clock.",
+		Rule: "Server.Serve with three connections plus a fourth offered after the fault; accept script: every placement of <=2 temporary accept errors among the offers; connection A suffers one fault from {handler panic, undecodable header with trailing bytes, disconnect in the middle of a message} at every position 1..3 of its three-message sequence; connections B, C and D exchange two request/answer pairs each with bodies that name their connection (the handler checks that the body belongs to the header); C and D are offered only after A's fault, and C's first message is held inside its body until D has been served completely (so a read buffer shared across connections is overwritten); every ordering of environment steps, timers and blocking hand-overs at preemption bound 0 (quick: each accept placement with three of the nine fault/position pairs; thorough: the full product, and preemption bound 1 for the placement without accept errors); back-off sleeps run on the virtual clock.",
 		Assume: []string{"data-race freedom between visible operations (audited separately with -race)"},
 		QuickBudget: 150, ThoroughBudget: 2400,
 	}
@@ -42,13 +43,16 @@ type srvState struct {
 	reports int
 	release *vs.Chan[struct{}]
 	mux     *diam.ServeMux
+	corrupt []string
 }
 
 var srvSt *srvState
 
+// srvReq builds request seq of connection conn; the body names both, so that a handler can
+// tell whether the bytes it was given belong to the message the header announces.
 func srvReq(conn, seq int) []byte {
 	return refcodec.EncodeMessage(refcodec.Header{Version: 1, Flags: 0x80, Code: 258, App: 0, HbH: uint32(conn + 1), E2E: uint32(seq + 1)},
-		[]refcodec.Node{ident(264, "c"), ident(296, "r")})
+		[]refcodec.Node{ident(264, fmt.Sprintf("conn%d-msg%d.example", conn+1, seq+1)), ident(296, "r")})
 }
 
 // deliver sends the request sequence of one connection with the given segmentation.
@@ -100,6 +104,8 @@ type srvOpts struct {
 	late      string         // connection offered only after `lateAfter` is closed
 	lateAfter string
 	reports   bool           // start the error-report observer
+	held      string         // late connection whose first message is cut inside its body; the rest follows only after heldAfter was fully answered
+	heldAfter string
 }
 
 func srvBody(o srvOpts) func() {
@@ -115,6 +121,9 @@ func srvBody(o srvOpts) func() {
 			id := fmt.Sprintf("%d.%d", m.Header.HopByHopID, m.Header.EndToEndID)
 			st.events = append(st.events, "enter "+id)
 			vs.Event("handler enter %s", id)
+			if a, err := m.FindAVP(264, 0); err != nil || fmt.Sprint(a.Data) != fmt.Sprint(datatype.DiameterIdentity(fmt.Sprintf("conn%d-msg%d.example", m.Header.HopByHopID, m.Header.EndToEndID))) {
+				st.corrupt = append(st.corrupt, fmt.Sprintf("message %s was delivered with a body that is not its own (Origin-Host %v)", id, a))
+			}
 			vs.Yield("handler-work")
 			name := o.names[int(m.Header.HopByHopID)-1]
 			if o.blockFirst == name && m.Header.EndToEndID == 1 {
@@ -152,10 +161,12 @@ func srvBody(o srvOpts) func() {
 			c := vnet.NewConn(n)
 			c.Pieces = 1
 			st.conns[n] = c
-			if o.fault == nil || !o.fault(n, c, i) {
+			if o.held == n {
+				// nothing queued yet: the held peer thread delivers in two instalments
+			} else if o.fault == nil || !o.fault(n, c, i) {
 				srvDeliver(c, i, o.nmsg, o.pattern[n])
 			}
-			if o.late == n {
+			if o.late == n || o.held == n {
 				continue
 			}
 			if o.attach[n] {
@@ -176,6 +187,28 @@ func srvBody(o srvOpts) func() {
 				lis.Offer(vnet.AcceptItem{Conn: st.conns[o.late]})
 			})
 		}
+		if o.held != "" {
+			hi := 0
+			for i, n := range o.names {
+				if n == o.held {
+					hi = i
+				}
+			}
+			vs.GoNamed("peer"+o.held, true, func() {
+				after := st.conns[o.lateAfter]
+				vs.BlockObj("wait-fault", after, func() bool { return after.Closed })
+				c := st.conns[o.held]
+				lis.Offer(vnet.AcceptItem{Conn: c})
+				m := srvReq(hi, 0)
+				c.Deliver(m[:len(m)-9]) // header and most of the body: the reader now waits inside the message
+				other := st.conns[o.heldAfter]
+				vs.BlockObj("wait-other-served", other, func() bool { return len(answersOn(other)) >= o.nmsg || other.Closed })
+				c.Deliver(m[len(m)-9:])
+				for s := 1; s < o.nmsg; s++ {
+					c.Deliver(srvReq(hi, s))
+				}
+			})
+		}
 		vs.GoNamed("serve", false, func() { srv.Serve(lis); st.served = true })
 	}
 }
@@ -183,6 +216,7 @@ func srvBody(o srvOpts) func() {
 // srvAnalyse returns per-connection ordering violations and handled counts.
 func srvAnalyse(st *srvState, names []string) (viol []string, handled map[string]int) {
 	handled = map[string]int{}
+	viol = append(viol, st.corrupt...)
 	open := map[string]string{}
 	last := map[string]int{}
 	for _, e := range st.events {
@@ -312,10 +346,19 @@ func c15Scenarios(tier string) []*Scenario {
 	for pi, pl := range placements {
 		for _, fault := range faults {
 			for pos := 1; pos <= 3; pos++ {
-				_ = pi
+				b := bound
+				if tier != "thorough" {
+					// quick: each accept placement with three of the nine (fault, position) pairs,
+					// rotating so that every pair occurs with at least three placements
+					if (pi+3*indexOfStr(faults, fault)+pos)%3 != 0 {
+						continue
+					}
+				} else if pi != 0 {
+					b = 0 // thorough: the full product at bound 0, bound 1 without accept errors
+				}
 				pl, fault, pos := pl, fault, pos
 				o := srvOpts{names: []string{"A", "B", "C", "D"}, nmsg: 2, pattern: map[string]string{"B": "one", "C": "each", "D": "one"},
-					tempBefore: pl, late: "D", lateAfter: "A", panicAt: map[string]int{}, reports: true}
+					tempBefore: pl, late: "D", lateAfter: "A", panicAt: map[string]int{}, reports: true, held: "C", heldAfter: "D"}
 				if fault == "panic" {
 					o.panicAt["A"] = pos
 				}
@@ -385,11 +428,20 @@ func c15Scenarios(tier string) []*Scenario {
 					return fmt.Sprintf("events=%d reports=%d end=%v", len(ev), st.reports, s.EndTime)
 				}
 				out = append(out, &Scenario{Name: fmt.Sprintf("faults/accept%v/%s@%d", fmtPlacement(pl), fault, pos), Body: srvBody(o), Check: check,
-					Outcome: outcome, Bound: bound, Horizon: 20 * time.Second})
+					Outcome: outcome, Bound: b, Horizon: 20 * time.Second})
 			}
 		}
 	}
 	return out
+}
+
+func indexOfStr(l []string, s string) int {
+	for i, x := range l {
+		if x == s {
+			return i
+		}
+	}
+	return -1
 }
 
 func fmtPlacement(p map[int]int) string {
